@@ -490,13 +490,17 @@ Proof.
     cbn [fst snd]. apply Consumes_stop. cbn [flat_node]. apply Ext_tok_at; exact H.
   - assert (E1 : forall s, w_using_low s = false -> Ext o (strip [open]) s (tok_at s open p None)) by (intros; apply Ext_tok_at; assumption).
     destruct (shaped_blk _ _ _ _ _ _ Hsh) as [_ [Hsb _]].
+    assert (EB : forall s, w_using_low s = false ->
+                 Ext o (strip (flatten body)) s
+                     (if is_layer_fn open then rpx_body o false body None s else cn_body o body true false false s)).
+    { intros s0 Hs0. destruct (is_layer_fn open); [apply Ext_rpx_body | apply Ext_cn_body]; assumption. }
     destruct open;
       try (eapply Consumes_cons;
            [rewrite strip_flat_block; eapply Ext_trans; [apply E1; exact H|];
-            eapply Ext_trans; [apply Ext_cn_body; [exact Hsb | eapply (Ext_using_low o); apply E1; exact H]|];
-            apply Ext_tok_at; eapply (Ext_using_low o); apply Ext_cn_body; [exact Hsb | eapply (Ext_using_low o); apply E1; exact H]
+            eapply Ext_trans; [apply EB; eapply (Ext_using_low o); apply E1; exact H|];
+            apply Ext_tok_at; eapply (Ext_using_low o); apply EB; eapply (Ext_using_low o); apply E1; exact H
            | apply IH; [exact Hrec'|]; eapply (Ext_using_low o); apply Ext_tok_at; eapply (Ext_using_low o);
-             apply Ext_cn_body; [exact Hsb | eapply (Ext_using_low o); apply E1; exact H]]).
+             apply EB; eapply (Ext_using_low o); apply E1; exact H]).
     cbn [fst snd]. apply Consumes_stop. rewrite strip_flat_block.
     set (st1 := set_stack st (w_stack st ++ [segment_since (cur_out st) mark])).
     assert (U1 : w_using_low st1 = false) by exact H.
